@@ -127,9 +127,77 @@ def one_shot_union_probe(ctx: Ctx, eng: morph.Engine) -> bool:
     return False
 
 
+def typeddict_dump_suite(ctx: Ctx, n: int):
+    """model dumpers with OPTIONAL output fields (TypedDict NotRequired keys): the three generated dumpers must agree on
+    whether dumping succeeds, also when a field's own dumper fails with the accessor's exception class (KeyError)"""
+    import copy
+    from decimal import Decimal
+    from typing import NotRequired, Optional, TypedDict, Union
+
+    from adaptix import DebugTrail, Retort
+    rng = ctx.rng
+    retorts = {m: Retort(debug_trail=getattr(DebugTrail, m)) for m in morph.MODES}
+    for i in range(n):
+        inner_keys = rng.sample(["x", "y", "z"], rng.randint(1, 3))
+        Inner = TypedDict(f"Inner{i}", {k: (int if rng.random() < 0.7 else NotRequired[int]) for k in inner_keys})
+        outer_fields = {}
+        shapes = {}
+        for k in rng.sample(["name", "inner", "items", "u", "opt", "m"], rng.randint(2, 5)):
+            tp, shape = {
+                "name": (str, "str"), "inner": (Inner, "inner"), "items": (list[Inner], "items"),
+                "u": (Union[int, Decimal], "union"), "opt": (Optional[Inner], "opt"), "m": (dict[str, Inner], "map"),
+            }[k]
+            outer_fields[k] = NotRequired[tp] if rng.random() < 0.6 else tp
+            shapes[k] = shape
+        Outer = TypedDict(f"Outer{i}", outer_fields)
+
+        def mk_inner():
+            return {k: rng.randrange(9) for k in inner_keys}
+
+        def mk(shape):
+            return {"str": lambda: "s", "inner": mk_inner, "items": lambda: [mk_inner() for _ in range(rng.randint(0, 2))],
+                    "union": lambda: rng.choice([1, Decimal("1.5")]), "opt": lambda: rng.choice([None, mk_inner()]),
+                    "map": lambda: {"k": mk_inner()}}[shape]()
+        value = {k: mk(sh) for k, sh in shapes.items()}
+        variants = [("valid", value)]
+        # invalid variants: break one nested thing
+        for k, sh in shapes.items():
+            bad = copy.deepcopy(value)
+            if sh == "inner" and inner_keys:
+                del bad[k][inner_keys[0]]
+            elif sh == "items":
+                bad[k] = [{kk: 1 for kk in inner_keys[1:]}]
+            elif sh == "union":
+                bad[k] = 1.5
+            elif sh == "opt":
+                bad[k] = {kk: 1 for kk in inner_keys[1:]}
+            elif sh == "map":
+                bad[k] = {"k": {kk: 1 for kk in inner_keys[1:]}}
+            else:
+                continue
+            variants.append((f"broken:{sh}", bad))
+        for label, v in variants:
+            outs = {}
+            for m in morph.MODES:
+                try:
+                    outs[m] = ("ok", retorts[m].dump(copy.deepcopy(v), Outer))
+                except Exception as e:  # noqa: BLE001
+                    outs[m] = ("fail", type(e).__name__)
+            case = {"suite": "typeddict-dump", "outer": {k: repr(t)[:60] for k, t in outer_fields.items()}, "inner_keys": inner_keys,
+                    "value": repr(v)[:300], "label": label}
+            kinds = {m: o[0] for m, o in outs.items()}
+            ctx.note_case(case, nontrivial=label != "valid", kind=f"typeddict-dump:{label}:{kinds['ALL']}")
+            if len(set(kinds.values())) != 1:
+                ctx.fail(f"dump-accept:model-optional-field:{label}", f"model dumpers disagree on whether dumping succeeds ({label}): "
+                         f"{ {m: o if o[0] == 'fail' else 'ok' for m, o in outs.items()} }", case)
+            elif kinds["ALL"] == "ok" and not (outs["DISABLE"][1] == outs["FIRST"][1] == outs["ALL"][1]):
+                ctx.fail("dump-value:model-optional-field", "model dumpers return different values", case)
+
+
 def run(ctx: Ctx):
     eng = morph.Engine(ctx)
     one_shot_union_probe(ctx, eng)
+    typeddict_dump_suite(ctx, ctx.budget(60, 1500))
     specs = eng.gen_specs(ctx.budget(160, 2500), 3 if ctx.tier == "quick" else 4)
     recs = eng.load_records(specs, suite="load", n_valid=2, n_corrupt=3, n_hostile=2)
     for rec in recs:
@@ -153,6 +221,7 @@ def run(ctx: Ctx):
 
 
 def search(ctx: Ctx):
+    typeddict_dump_suite(ctx, 600)
     eng = morph.Engine(ctx)
     eng.drv = None
     specs = eng.gen_specs(1500, 4)
